@@ -723,6 +723,12 @@ func countLeadingSpace(line string) (i int) {
 func validateStringMap(field string, nodes []yamlMap, offsetLine int, lines diags.LineRange) (bool, ParseError, diags.LineRange) {
 	names := map[string]struct{}{}
 	for _, entry := range nodes {
+		if entry.key.Kind != yaml.ScalarNode && entry.key.Kind != yaml.AliasNode {
+			return false, ParseError{
+				Line: entry.key.Line + offsetLine,
+				Err:  fmt.Errorf("%s key must be a %s, got %s instead", field, describeTag(strTag), describeTag(entry.key.ShortTag())),
+			}, lines
+		}
 		if !isTag(entry.val.ShortTag(), strTag) {
 			return false, ParseError{
 				Line: entry.val.Line + offsetLine,
